@@ -291,6 +291,35 @@ fn part_captures(ctx: &Ctx, sink: &mut Sink) {
             }
             let desc = json!({"captured": item.describe(), "definition": def});
             check_function(sink, &a, &desc, &format!("captured={} position={}", cname, bname), 1, &mut r, tuples, &fixed, &format!("cap|{}|{}", cname, bname));
+            // the same closure created and named in other ways: captured from a maker's parameter (no top-level `cap`),
+            // first bound under the very name it captured, and a do-block local rebound to a closure over its old value
+            for (variant, setup) in [
+                ("captured-from-maker-parameter", vec!["capv = cap_src".to_string(), format!("mk = cap => (x => {})", body), "f = mk(capv)".to_string()]),
+                ("function-bound-under-the-captured-name", vec!["capv = cap_src".to_string(), format!("mk = cap => (x => {})", body), "cap = mk(capv)".to_string(), "f = cap".to_string()]),
+                ("do-local-rebound-to-closure-over-itself", vec!["capv = cap_src".to_string(), format!("f = do {{\n  cap = capv\n  cap = (x => {})\n  return cap\n}}", body)]),
+            ] {
+                let b = Sess::new();
+                let capv = a.env.get("cap").map(|v| a.rval(&v));
+                let Some(capv) = capv else { continue };
+                if matches!(capv, RVal::Fn { .. } | RVal::BuiltIn(_)) {
+                    // functions cannot be rebuilt by value; take them by source when there is one
+                    match &item {
+                        PoolItem::Src(src) => {
+                            if !b.eval(&format!("cap_src = {}", src)).is_ok() {
+                                continue;
+                            }
+                        }
+                        _ => continue,
+                    }
+                } else {
+                    b.bind("cap_src", mk_value(&b.heap, &capv));
+                }
+                if !setup.iter().all(|st| b.eval(st).is_ok()) {
+                    continue;
+                }
+                let desc = json!({"captured": item.describe(), "setup": setup});
+                check_function(sink, &b, &desc, &format!("captured={} position={} how={}", cname, bname, variant), 1, &mut r, tuples.min(6), &fixed, &format!("cap|{}|{}|{}", cname, bname, variant));
+            }
         }
     }
 }
